@@ -64,7 +64,7 @@ def build_neighbour(tag: str):
     return other
 
 
-def build_server():
+def build_server(own_cancelled_handler: bool = True):
     from chuk_mcp.server.server import MCPServer
     older = build_neighbour("older")
     srv = MCPServer("verif-server", "1.0")
@@ -217,7 +217,8 @@ def build_server():
     ph.register_method("custom/raise", custom_raise)
     ph.register_method("notifications/custom-ok", custom_note)
     ph.register_method("notifications/custom-raise", custom_note_raise)
-    ph.register_method("notifications/cancelled", custom_note_raise)  # a standard name with a failing handler
+    if own_cancelled_handler:
+        ph.register_method("notifications/cancelled", custom_note_raise)  # a standard name with a failing handler
     srv._verif_neighbours.append(build_neighbour("newer"))
     return srv
 
@@ -276,6 +277,19 @@ def params_shapes(method: str) -> List[Any]:
 
 
 def gen_cases(ctx):
+    yield from _gen_cases(ctx)
+    # requests that follow a notification naming their id (the peer's notifications/cancelled speaks of the peer's own
+    # requests; a progress notification's token may equal an id by chance): still exactly one response
+    for mid in IDS:
+        for method in ("ping", "tools/list", "tools/call", "resources/read", "custom/ok", "custom/raise", "nope"):
+            for note in ({"method": "notifications/cancelled", "params": {"requestId": mid, "reason": "gave up"}},
+                         {"method": "notifications/progress", "params": {"progressToken": mid, "progress": 1}}):
+                ps = {"name": "echo", "arguments": {"text": "x"}} if method == "tools/call" else \
+                    {"uri": "file:///ok.txt"} if method == "resources/read" else {}
+                yield {"method": method, "id": mid, "has_id": True, "params": ps, "rep": "parse", "after_note": note}
+
+
+def _gen_cases(ctx):
     rng = ctx.sub_rng("c08")
     core = ["initialize", "ping", "tools/list", "tools/call", "resources/list", "resources/read", "custom/ok",
             "custom/raise"] + CUSTOM_RAISERS + list(CUSTOM_RESULTS)
@@ -474,9 +488,13 @@ def run(ctx):
 
     async def batch(cs):
         srv = build_server()
-        h = srv.protocol_handler
+        h_main = srv.protocol_handler
+        # (a second server whose application registers nothing for notifications/cancelled: whatever the library itself
+        # does with that notification is then in play)
+        h_plain = build_server(own_cancelled_handler=False).protocol_handler
         outs = []
         for k, case in enumerate(cs):
+            h = h_plain if "after_note" in case else h_main
             try:
                 msg = build_msg(case)
             except Exception as e:  # noqa
@@ -492,6 +510,13 @@ def run(ctx):
                     h.session_manager.delete_session(sid)
                 elif sess == "unknown":
                     sid = "never-issued-session-id"
+                if "after_note" in case:
+                    # a notification that arrived earlier on the same dispatcher (it names ids, tokens, uris...: ids are
+                    # per direction, so whatever it names is not this request)
+                    note = case["after_note"]
+                    from chuk_mcp.protocol.messages.json_rpc_message import parse_message
+                    await h.handle_message(parse_message({"jsonrpc": "2.0", "method": note["method"], "params": note["params"]}),
+                                           **({"session_id": sid} if sess else {}))
                 r = await h.handle_message(msg, session_id=sid) if sess else await h.handle_message(msg)
                 outs.append((case, "ok", r))
             except BaseException as e:  # noqa
